@@ -1,9 +1,6 @@
 #!/bin/bash
 # Build the framework from files on disk only (offline): translator output + full .vo build.
-set -e
 cd "$(dirname "$0")"
 export PYTHONPATH=/verif/harness:/repo PYTHONHASHSEED=0
-if [ -f harness/translate.py ]; then /venv/bin/python harness/translate.py || true; fi
-cd coq
-coq_makefile -f _CoqProject -o Makefile > /dev/null 2>&1
-timeout 3000 make -j16 2>&1 | grep -v '^Warning\|Closed under\|^COQ' | tail -20 || true
+/venv/bin/python harness/build_all.py 2>&1 | grep -v 'WARNING conda'
+exit 0
